@@ -137,6 +137,15 @@ theorem reMatch_last (d k : Cls) (s : List Char) (hd : ∀ c ∈ s, d.mem c = tr
 
 
 
+/-- `[k]*$` on a string of class-`k` characters -/
+theorem reMatch_star_eol (k : Cls) (s : List Char) (h : ∀ c ∈ s, k.mem c = true) :
+    reMatch [.rep k 0 none, .eol] s = true := by
+  simp only [reMatch, matchFrom, repGo_iff, Bool.and_eq_true, Bool.or_eq_true, beq_iff_eq, and_true]
+  refine ⟨s.length, Nat.zero_le _, ?_, Nat.le_refl _, ?_, ?_⟩
+  · intro h e; cases e
+  · intro c hc; exact h c (List.mem_of_mem_take hc)
+  · left; simp
+
 /-! ## membership by code point -/
 
 theorem contains_code (s : List Char) (n : Nat) (hn : (Char.ofNat n).toNat = n) :
